@@ -28,7 +28,10 @@ for p in sorted(props.REGISTRY):
             continue
         # closure-wide pattern rules: they are applied to whatever the call-graph closure of the property's operations
         # contains, so their instance count follows the shape of the call graph, not an anchor of the property
-        if r.startswith(('R-INJ', 'R-SORT', 'R-EPS.const', 'R-EPS.default', 'R-EPS.word', 'R-WORK.recmemo')):
+        if r.startswith(('R-INJ', 'R-SORT', 'R-EPS.const', 'R-EPS.default', 'R-EPS.word', 'R-EPS.rekey', 'R-WORK.recmemo', 'R-WORK.W10')):
+            continue
+        # guarded reads are an anchored rule of C01, C03 and C19; elsewhere they are applied to the closure
+        if r == 'R-EFFECT.c' and p not in ('C01', 'C03', 'C19'):
             continue
         # half of what was confirmed on the triaged tree: instances are counted per occurrence (per read of G.R, per
         # call site ...), and behaviour-preserving refactorings (a local alias, a helper) were seen to remove up to
